@@ -6,9 +6,9 @@ from vlib.core import zlit, blist
 
 OBLIGATIONS = dict(
     prop_file='Properties/C12.v',
-    glue=['Glue/DropoutGlue.v'] + ['Glue/Pin_fp_C12.v'],
+    glue=['Glue/DropoutGlue.v'] + ['Glue/Pin_fp_C12.v', 'Glue/DropIndepGlue.v'],
     extra=['Model/Dropout.vo'],
-    gen_items=[f'{k}_{t}_{s}' for t in ('rvq', 'rfsq', 'rlfq', 'rsvq') for k, s in (('k', 'skip'), ('k', 'drop_index'), ('g', 'should_dropout'), ('g', 'dropout_enabled'))] + ['fp_C12'],
+    gen_items=[f'{k}_{t}_{s}' for t in ('rvq', 'rfsq', 'rlfq', 'rsvq') for k, s in (('k', 'skip'), ('k', 'drop_index'), ('g', 'should_dropout'), ('g', 'dropout_enabled'))] + ['o_dropped_branch', 'fp_C12'],
 )
 ASSUMPTIONS = [
     "Python's random.Random(seed).randrange is an oracle: its value r is recorded per seed and only its contract cutoff <= r < n is used by the theorems",
